@@ -75,10 +75,36 @@ Definition check_spec (c : case) : bool :=
   && match c_ba c with Some (Some r) => Bool.eqb r (spec None (c_n c) (c_k c) (c_b c) (c_a c)) | _ => true end
   && match c_ab c, c_ba c with Some r, Some (Some r') => Bool.eqb r r' | _, _ => true end.
 
+(* the code-shaped model of is_almost_equal decides the observation as well *)
+Definition code_almost (p : nat) (a b : obj) : option out :=
+  match a with
+  | OModel m => Some (is_almost_equal_code p m b)
+  | OCqm c => Some (cqm_is_almost_equal_code p c b)
+  | _ => None
+  end.
+
+Definition check_almost_code (c : case) : bool :=
+  forallb (fun pr => match code_almost (fst pr) (c_a c) (c_b c) with
+                     | Some o => agrees o (snd pr)
+                     | None => true
+                     end) (c_almost c).
+
+(* observations of real models are well formed (distinct labels, one interaction per pair) *)
+Definition obj_wf (o : obj) : bool :=
+  match o with
+  | OModel m => wf_b m
+  | OCqm c => wf_b (q_obj c) && forallb (fun lc => wf_b (k_lhs (snd lc))) (q_cons c)
+               && nodup_b Nat.eqb (map fst (q_cons c))
+  | _ => true
+  end.
+
+Definition check_wf (c : case) : bool := obj_wf (c_a c) && obj_wf (c_b c).
+
 Definition check_almost (c : case) : bool :=
   forallb (fun pr => match snd pr with
                      | Some r => Bool.eqb r (spec (Some (fst pr)) (c_n c) (c_k c) (c_a c) (c_b c))
                      | None => true
                      end) (c_almost c).
 
-Definition check (c : case) : bool := check_total c && check_corr c && check_spec c && check_almost c.
+Definition check (c : case) : bool :=
+  check_total c && check_corr c && check_spec c && check_almost c && check_almost_code c && check_wf c.
